@@ -49,7 +49,10 @@ def run_mutant(m, tier, run_tests, seed):
                                cwd=VERIF, env=env, capture_output=True, text=True)
             lines = [l for l in r.stdout.splitlines()
                      if l.startswith(("VIOLATION", "  mechanism", "INCONCLUSIVE"))]
-            res[prop] = dict(rc=r.returncode, lines=[l[:300] for l in lines[:4]])
+            rc = r.returncode
+            if rc == 1 and not any(l.startswith("VIOLATION property=" + prop) for l in lines):
+                rc = 3  # crashed, not a verdict
+            res[prop] = dict(rc=rc, lines=[l[:300] for l in lines[:4]])
         return dict(name=m["name"], status="ran", tests_ok=tests_ok, res=res)
     finally:
         shutil.rmtree(scratch, ignore_errors=True)
